@@ -29,6 +29,9 @@ var rtVarKinds = []varKind{
 	{name: "num", good: []string{"5", "55"}, bad: []string{"05", "x"}},
 	{re: `[a-c]{2,}`, good: []string{"ab", "abc"}, bad: []string{"a", "abd"}},
 	{re: `x?y`, good: []string{"y", "xy"}, bad: []string{"xxy", "x"}},
+	// several top-level groups: the variable's capture is around the whole regex
+	{re: `(?:v|V)(?:[0-9]+)`, good: []string{"v2", "V10"}, bad: []string{"v", "2", "x1"}},
+	{re: `(?:[a-z]+)-(?:\d+)`, good: []string{"beta-12", "a-0"}, bad: []string{"beta", "-1", "B-1"}},
 	// a custom regex under the name of a global variable: the custom regex wins
 	{name: "all", re: `[a-z]+`, good: []string{"abc", "z"}, bad: []string{"A/b", "a/b", "a1", ""}},
 	{name: "any", re: `\d+`, good: []string{"12"}, bad: []string{"abc", "1a"}},
